@@ -241,7 +241,7 @@ class LinkBench:
             "bringup": False, "next_ack": 0, "sent_unacked": [], "letter": 0, "held": 0, "given": 0,
             "p_ignoring": False, "adv_rx": None,
             # protocol layer
-            "offer": None, "want": 0, "auto": 0.0,
+            "offer": None, "want": 0, "auto": 0.0, "dp": None,
             # partner automatic behaviour in U0
             "auto_ack": None, "auto_ka": None, "last_prx": 0, "ackq": [],
             "last_word": -100, "hp_t0": None,
@@ -452,6 +452,28 @@ class LinkBench:
                     o["driven"] = True
             else:
                 setsig(dut.header_sink.valid, 0)
+            # --- protocol layer: data packet producer (data_sink)
+            dp = st["dp"]
+            if dp is not None and dp["i"] < len(dp["words"]):
+                w, vm = dp["words"][dp["i"]]
+                setsig(dut.data_sink.valid, vm)
+                setsig(dut.data_sink.data, w)
+                setsig(dut.data_sink.first, 1 if dp["i"] == 0 else 0)
+                setsig(dut.data_sink.last, 1 if dp["i"] == len(dp["words"]) - 1 else 0)
+                if not dp["logged"]:
+                    dp["logged"] = True
+                    log({"e": "dp_offer", "n": dp["n"]})
+            else:
+                setsig(dut.data_sink.valid, 0)
+                setsig(dut.data_sink.first, 0)
+                setsig(dut.data_sink.last, 0)
+            if dp is not None and dp.get("zlp"):
+                setsig(dut.data_sink_send_zlp, 1)
+                dp["zlp"] = False
+                dp["logged"] = True
+                log({"e": "dp_offer", "n": 0})
+            else:
+                setsig(dut.data_sink_send_zlp, 0)
             # --- input events of this cycle
             if tag is not None:
                 if tag["e"] == "hdr":
@@ -554,7 +576,8 @@ class LinkBench:
                             elif pc["cmd"] == P.LGOOD and st["adv_rx"] is None:
                                 pass
                     elif kind == "hp_first":
-                        log({"e": "hps", "ns": st["ns"]})
+                        log({"e": "hps", "ns": st["ns"], "w": [0] * 8, "dph": False})
+                        st["hps_rec"] = ev[-1]
                         st["ns"] = 0
                         info["hp"].append([c, None])
                         st["hp_in_u0"] = st["up"]
@@ -563,6 +586,11 @@ class LinkBench:
                         for w in x[1]:
                             lim += P.limbs(w)
                         log({"e": "hpe", "w": lim, "ctrl": max(x[2]), "cs": st["cs_in_unit"], "sk": st["skp_in_unit"]})
+                        if st.get("hps_rec") is not None:
+                            # the start record learns what the packet turned out to be (DW0[4:0] = 8: data packet header)
+                            st["hps_rec"]["w"] = lim
+                            st["hps_rec"]["dph"] = (x[1][0] & 0x1F) == 8
+                            st["hps_rec"] = None
                         st["cs_in_unit"] = st["skp_in_unit"] = 0
                         if info["hp"]:
                             info["hp"][-1][1] = c
@@ -578,6 +606,7 @@ class LinkBench:
                     elif kind == "dpp_end":
                         log({"e": "dpe", "cs": st["cs_in_unit"], "sk": st["skp_in_unit"]})
                         st["cs_in_unit"] = st["skp_in_unit"] = 0
+                        info["dp_done"] = info.get("dp_done", 0) + 1
                     elif kind == "other":
                         log({"e": "tx_other", "lo": x[1] & 0xFFFF, "hi": x[1] >> 16, "ctrl": x[2]})
             # --- protocol layer events
@@ -598,6 +627,8 @@ class LinkBench:
                     lim += P.limbs(w)
                 log({"e": "acc", "w": lim + [lcw]})
                 st["offer"] = None
+            if dp is not None and dp["i"] < len(dp["words"]) and ctx.get(dut.data_sink.ready):
+                dp["i"] += 1
             await ctx.tick("ss")
             st["cycle"] = c + 1
             if probes is not None:
@@ -837,6 +868,31 @@ class LinkBench:
                         if st["offer"] is not None:
                             st["offer"] = None          # withdrawn (never accepted)
                             info["skipped"] += 1
+                elif k == "dp":
+                    # the protocol layer sends a data packet of op[1] bytes (0: zero-length packet strobe)
+                    if not st["up"] or st["offer"] is not None:
+                        info["skipped"] += 1
+                        continue
+                    n = op[1]
+                    by = [rng.getrandbits(8) for _ in range(n)]
+                    wl = []
+                    for i in range(0, n, 4):
+                        chunk = by[i:i + 4]
+                        wl.append((sum(b << (8 * j) for j, b in enumerate(chunk)), (1 << len(chunk)) - 1))
+                    setsig(dut.data_sink_length, n)
+                    setsig(dut.data_sink_sequence_number, rng.getrandbits(5))
+                    setsig(dut.data_sink_endpoint_number, rng.randrange(1, 16))
+                    setsig(dut.data_sink_direction, 1)
+                    setsig(dut.current_address, rng.randrange(1, 128))
+                    st["dp"] = {"words": wl, "i": 0, "n": n, "logged": False, "zlp": n == 0}
+                    d0 = info.get("dp_done", 0)
+                    nn = 0
+                    while (info.get("dp_done", 0) == d0 or st["dp"]["i"] < len(wl)) and nn < 60 + len(wl) * 2 and st["up"]:
+                        await cycle()
+                        nn += 1
+                    if info.get("dp_done", 0) == d0:
+                        info["skipped"] += 1
+                    st["dp"] = None
                 elif k == "mark":
                     info["marks"][op[1]] = st["cycle"]
                 else:
